@@ -249,6 +249,7 @@ def replay_backtracking(viol):
 
 # ---------------------------------------------------------------- C06
 IDX_PROGRAM = """
+p2(1,a). p2(2,b). p2(_,c). p2(2,d). p2(3,e).
 p(2). p(foo). p(7).
 big(36028797018963968). big(bar).
 :- dynamic(q/1).
@@ -266,7 +267,9 @@ def replay_index_keys(which, model):
                  ("X is 2^60-2^60+2, assertz(q(X)), assertz(q(2)), findall(A, q(2), L1), "
                   "findall(A, q(X), L2), length(L1, N1), length(L2, N2), show(N1-N2)", "2-2"),
                  ("Y is 1 ^ (-1), retractall(q(_)), assertz(q(1)), ( q(Y) -> show(yes) ; show(no) )",
-                  "yes")]
+                  "yes"),
+                 # a later indexed block must still be considered (clause look-ahead)
+                 ("Y is 2^60-2^60+2, findall(T, p2(Y,T), L), show(L)", "[b,c,d]")]
     else:
         cases = [("Z is 2^55, ( big(Z) -> show(yes) ; show(no) )", "yes")]
     return run_cases(IDX_PROGRAM, cases, {"model": model, "class": which}, "C06",
